@@ -241,7 +241,18 @@ func paren(j J, style int) string {
 
 // renderSrc renders a core tree as source text.  Compound operands are always
 // parenthesised (precedence itself is C08's business).  style bit 0: `if` as ?:,
-// bit 1: method-call sugar for identifier-named calls with >= 1 argument.
+// bit 1: method-call sugar for identifier-named calls with >= 1 argument,
+// bit 2: five blanks around binary operators, bit 3: none (symbolic operators only).
+func opGap(name string, style int) string {
+	switch {
+	case style&4 != 0:
+		return "     "
+	case style&8 != 0 && !kwOps[name]:
+		return ""
+	}
+	return " "
+}
+
 func renderSrc(j J, style int) string {
 	switch j["k"] {
 	case "num":
@@ -301,7 +312,8 @@ func renderSrc(j J, style int) string {
 		name := str(f["n"])
 		if identLike(name) && !kwOps[name] {
 			if name == "if" && style&1 != 0 && len(args) == 3 {
-				return paren(obj(args[0]), style) + " ? " + paren(obj(args[1]), style) + " : " + paren(obj(args[2]), style)
+				g := opGap("?", style)
+				return paren(obj(args[0]), style) + g + "?" + g + paren(obj(args[1]), style) + g + ":" + g + paren(obj(args[2]), style)
 			}
 			if style&2 != 0 && len(args) >= 1 {
 				rest := []string{}
@@ -316,7 +328,8 @@ func renderSrc(j J, style int) string {
 		case 1:
 			return name + " " + paren(obj(args[0]), style)
 		case 2:
-			return paren(obj(args[0]), style) + " " + name + " " + paren(obj(args[1]), style)
+			g := opGap(name, style)
+			return paren(obj(args[0]), style) + g + name + g + paren(obj(args[1]), style)
 		}
 		panic("operator call with arity " + strconv.Itoa(len(args)) + " has no source form")
 	}
